@@ -7,13 +7,13 @@ import (
 
 // LZMAResult is what DecodeLZMA returns.
 type LZMAResult struct {
-	Out        []byte
-	Props      Props
-	DictSize   uint32 // header field as written
-	SizeField  int64  // -1 = unknown
-	Marker     bool
-	Consumed   int
-	Stats      Stats
+	Out       []byte
+	Props     Props
+	DictSize  uint32 // header field as written
+	SizeField int64  // -1 = unknown
+	Marker    bool
+	Consumed  int
+	Stats     Stats
 }
 
 // DecodeLZMA strictly decodes a classic .lzma stream that must fill `in`
